@@ -197,7 +197,7 @@ def generate(config="ws", repo=None, quiet=False):
 def _gc(keep):
     """Keep disk use bounded: drop fact dirs of older trees (keep the 3 newest)."""
     base = os.path.join(WORK, "facts")
-    dirs = [d for d in os.listdir(base) if os.path.isdir(os.path.join(base, d)) and d != keep]
+    dirs = [d for d in os.listdir(base) if os.path.isdir(os.path.join(base, d)) and d != keep and not d.startswith("controls-")]
     dirs.sort(key=lambda d: os.path.getmtime(os.path.join(base, d)), reverse=True)
     for d in dirs[int(os.environ.get("VERIF_FACTS_KEEP", "8")):]:
         shutil.rmtree(os.path.join(base, d), ignore_errors=True)
